@@ -66,6 +66,32 @@ def check(run):
     for l, a, b in zip(lines1, o0, o1):
         if a != b:
             oracle_fail.append((cfg, l, "same as<T>()/is<T>() as for the copied string: " + a[:200], b[:200]))
+    # after an allocation failure earlier in the document's life (overflowed() stays set until clear()), with memory available
+    # again: what the later operations return and leave behind does not depend on how their string operands are given
+    gdefs = {"ARDUINOJSON_POOL_CAPACITY": 4, "ARDUINOJSON_INITIAL_POOL_COUNT": 1}
+    implG = vlib.need_harness("hist_h", cfg, gdefs)
+    fscript = ("toarr 0 @0 ;; addval 0 s6669727374 @0 ;; addval 0 i1 @0 ;; addval 0 i2 @0 ;; addval 0 i3 @0 ;; addval 0 i4 @0 ;; "
+               "addval 0 s7468697264 @0 ;; setelem 0 1 s7468697264 @0 ;; toobj 1 @0,1 ;; setmember 1 6b s7468697264 @0,1 ;; addval 0 s6c617374 @0,1 ;; ")
+    ref = None
+    for kind in KINDS:
+        dry, c0 = vlib.run_lines(implG, ["CFG " + cfg, f"HRUN 2 {kind} - " + fscript])
+        dsteps, _ = histcheck.parse_run(dry[1]) if len(dry) > 1 else ([], "")
+        if c0 or len(dsteps) < 11:
+            oracle_fail.append((cfg, f"HRUN 2 {kind} - " + fscript, "history runs", (c0 or "")[-200:])); continue
+        k = dsteps[5][2]          # allocator calls made before the 5th element is added: that call (a new pool) is made to fail
+        if dsteps[5][3] == dsteps[5][2]:
+            continue
+        io, c2 = vlib.run_lines(implG, ["CFG " + cfg, f"HRUN 2 {kind} {k} " + fscript])
+        run.count(("after-failure", kind))
+        steps, trailer = histcheck.parse_run(io[1]) if len(io) > 1 else ([], "")
+        vis = [st[0] for st in steps]
+        if c2 or len(vis) < 11:
+            oracle_fail.append((cfg, f"HRUN 2 {kind} {k} " + fscript, "history runs after an allocation failure", (c2 or "")[-300:])); continue
+        if ref is None:
+            ref = (kind, vis)
+        elif vis != ref[1]:
+            j = next(i for i, (a_, b_) in enumerate(zip(vis, ref[1])) if a_ != b_)
+            oracle_fail.append((cfg, f"HRUN 2 {kind} {k} " + fscript, f"after an earlier allocation failure, step {j} gives the same result as with strings given as {KINDS[ref[0]]}: {ref[1][j][:120]}", vis[j][:160]))
     # comparisons: a string operand gives the same twelve answers whether it is a variant (linked or copied), a std::string,
     # a C string, a flash string, a string_view or a JsonString (the harness appends a marker when two kinds disagree);
     # bytes >= 0x80 and embedded NUL included
